@@ -336,7 +336,7 @@ package collect
 //@   arith math
 //@   assert uses C15.square-bound
 //@   requires s != nil
-//@   requires[levels-bounded] localLevel <= 100 && (forall k string :: in(s.stressLevels, k) ==> s.stressLevels[k].level <= 100)
+//@   requires[levels-bounded@C15] localLevel <= 100 && (forall k string :: in(s.stressLevels, k) ==> s.stressLevels[k].level <= 100)
 //@   ensures[bounded] result <= 100
 //@   ensures[own-report-recorded-or-expired] forall k string :: in(s.stressLevels, k) ==> (in(old(s.stressLevels), k) || k == s.hostID)
 //@   ensures[levels-stay-bounded] forall k string :: in(s.stressLevels, k) ==> s.stressLevels[k].level <= 100
@@ -353,7 +353,7 @@ package collect
 //@   arith math
 //@   assert callresults 0 <= result && result <= 1.0000001
 //@   requires s != nil
-//@   requires[peer-levels-bounded] forall k string :: in(s.stressLevels, k) ==> s.stressLevels[k].level <= 100
+//@   requires[peer-levels-bounded@C15] forall k string :: in(s.stressLevels, k) ==> s.stressLevels[k].level <= 100
 //@   let now = clockNow(s.Clock)
 //@   ensures[level-is-larger-of-own-and-cluster] s.overallStressLevel == max(clusterStressLevel, result)
 //@   ensures[level-bounded] result <= 100 && s.overallStressLevel <= 100
@@ -386,3 +386,9 @@ package collect
 //@   assert only make-chan-size
 //@   assert finding F-C28-4 make-chan-size
 //@   requires parent != nil
+
+// ---- C35: lock discipline of the stress reliever. Recalc (its own goroutine), UpdateFromConfig (reload
+// callback), the peer-message handler, Stressed() and GetSampleRate() (every router goroutine) share this state.
+// (formula is written and read by the Recalc goroutine only; Start runs before the reliever is shared.)
+//@ guarded_by collect.StressRelief.lock: mode, activateLevel, deactivateLevel, sampleRate, upperBound, overallStressLevel, reason, stressed, stayOnUntil, minDuration, stressLevels
+//@ lockdiscipline collect.StressRelief lock props C35 skip: Start
